@@ -16,10 +16,12 @@ use wirefilter::ParserSettings;
 pub const ID: &str = "C11";
 
 /// (text, quantifiable)
-const ATOMS: [(&str, bool); 14] = [
+const ATOMS: [(&str, bool); 15] = [
     // an escaped quote inside a class must reach the engine unchanged
     ("[\\\"]", true),
     ("[a\\\"]", true),
+    // ... and an escaped backslash right before the closing bracket
+    ("[a\\\\]", true),
     ("a", true),
     ("b", true),
     (".", true),
